@@ -6,6 +6,9 @@
 #include <typeinfo>   // So we can use typeid().name() in the assertion failures
 #include "system/Mutex.h"
 #include "util/OutputPrinter.h"
+#ifdef MUSCLE_VERIF_HOOKS
+# include "support/VerifHooks.h"
+#endif
 
 namespace muscle {
 
@@ -185,6 +188,9 @@ public:
          DECLARE_MUTEXGUARD(_mutex);
          ret = ObtainObjectAux();
       }
+#ifdef MUSCLE_VERIF_HOOKS
+      MUSCLE_VERIF_POINT(MVH_POOL_OBTAIN_AFTER_UNLOCK, ret, 0);
+#endif
 
       if (ret) ret->SetManager(this);
           else MWARN_OUT_OF_MEMORY;
@@ -209,10 +215,16 @@ public:
 #else
          *obj = GetDefaultObject();  // necessary so that eg if (obj) is holding any Refs, it will release them now
          obj->SetManager(NULL);
+#ifdef MUSCLE_VERIF_HOOKS
+         MUSCLE_VERIF_POINT(MVH_POOL_RELEASE_AFTER_RESET, obj, 0);
+#endif
 
          DECLARE_NAMED_MUTEXGUARD(mg, _mutex);
          ObjectSlab * slabToDelete = ReleaseObjectAux(obj);
          mg.UnlockEarly();  // so that the delete call can happen outside the critical section, for better concurrency
+#ifdef MUSCLE_VERIF_HOOKS
+         MUSCLE_VERIF_POINT(MVH_POOL_RELEASE_AFTER_UNLOCK, this, (slabToDelete != NULL));
+#endif
          delete slabToDelete;
 #endif
       }
